@@ -1054,7 +1054,8 @@ func (c *kctx) execFromWire(i int, op KOp) {
 	for j := range back {
 		back[j] = poison
 	}
-	buf := back[16 : 16+n : 16+n]
+	lead := 16 + int(op.B>>30) // the buffer starts at any alignment (a slice of a larger read buffer)
+	buf := back[lead : lead+n : lead+n]
 	x := uint64(op.B) | 1
 	for j := range buf {
 		x = core.SplitMix64(x)
@@ -1465,7 +1466,7 @@ func (c *kctx) concurrentPhase(gb *gateBox) {
 					}
 					h.Rec(evKCall, opid, int64(op.K), 0, 0, "")
 					seq, err := c.realNL.Send(syscall.NetlinkMessage{
-						Header: syscall.NlMsghdr{Type: uint16(op.C), Flags: uint16(op.B), Pid: uint32(op.D)},
+						Header: syscall.NlMsghdr{Type: uint16(op.C), Flags: uint16(op.B), Pid: sendPid(op)},
 						Data:   sends[ti][oi].sb.live,
 					})
 					e := int64(0)
@@ -1707,6 +1708,17 @@ func sendPayload(tag int, n int) []byte {
 
 // ---------- C18: framing ----------
 
+// ownPidSentinel in KOp.D: the caller puts the process id of this very process
+// into Header.Pid (plans are data and must not carry a process id).
+const ownPidSentinel = int64(1) << 40
+
+func sendPid(op KOp) uint32 {
+	if op.D == ownPidSentinel {
+		return uint32(os.Getpid())
+	}
+	return uint32(op.D)
+}
+
 func (c *kctx) execSendRaw(i int, op KOp) {
 	if c.realNL == nil {
 		return
@@ -1735,7 +1747,7 @@ func (c *kctx) execSendRaw(i int, op KOp) {
 		// whatever the caller left in the header's length and sequence fields (a message
 		// that was received and is answered, a request struct used again) is not Send's input
 		staleLen := []uint32{7, 0, 16, uint32(16 + len(payload)), uint32(15 + len(payload)), uint32(20 + len(payload)), 8986, 1 << 31}[(op.E>>5)&7]
-		seq, err = c.realNL.Send(syscall.NetlinkMessage{Header: syscall.NlMsghdr{Type: uint16(op.C), Flags: uint16(op.B), Pid: uint32(op.D), Len: staleLen, Seq: 99}, Data: payload})
+		seq, err = c.realNL.Send(syscall.NetlinkMessage{Header: syscall.NlMsghdr{Type: uint16(op.C), Flags: uint16(op.B), Pid: sendPid(op), Len: staleLen, Seq: 99}, Data: payload})
 	}()
 	c.mix(uint64(seq)<<20 ^ uint64(op.A))
 	c.tr("#%d Send type=%d flags=%#x pid=%d payload=%d bytes -> seq=%d err=%v", i, op.C, op.B, op.D, op.A, seq, err)
@@ -1787,7 +1799,7 @@ func (c *kctx) judgeSendWire(op KOp, payload []byte, seq uint32, failed bool, le
 	if found[0].Malformed == "destination is not the kernel" {
 		c.viol("send-destination", "Send", "Send addressed the datagram to a non-kernel port id")
 	}
-	wantPid := uint32(op.D)
+	wantPid := sendPid(op)
 	if wantPid == 0 {
 		wantPid = c.p.PortID
 	}
@@ -1830,6 +1842,19 @@ func (c *kctx) execRecvRaw(i int, op KOp) {
 			putU16(data[4:], uint16(op.C>>9)) // any type
 		}
 		putU32(data[8:], 0)
+		if (op.C>>27)&7 == 5 && n >= 48 {
+			// the payload quotes a netlink header exactly where a second message of a
+			// batch would start, and its length completes the datagram: still one
+			// datagram, one message, everything after the first 16 bytes is payload
+			first := 16 + 4*int((op.C>>19)%uint32((n-32)/4))
+			putU32(data[0:], uint32(first))
+			putU32(data[first:], uint32(n-first))
+			putU16(data[first+4:], getU16(data[4:]))
+			putU16(data[first+6:], 2)
+			putU32(data[first+8:], 0)
+			putU32(data[first+12:], 0)
+			c.res.Probes[kpRecvLenField]++
+		}
 	}
 	var fromPid uint32
 	nonNL := false
